@@ -1,0 +1,30 @@
+//go:build verif
+
+// Verification contracts for join / sync completion in the consumer-group coordinator
+// (pkg/broker/coordinator.go); comment-only, read by /verif/govc. Most C14 clauses sit next to the functions'
+// other clauses in zz_verif_contracts_c13.go (groupInv, allJoined, completeIfReady, ensureLeader, JoinGroup,
+// LeaveGroup, encodeMemberSubscriptions) and zz_verif_contracts_c43.go (expiry keeps groupInv); this file adds the
+// sync side and the member list of the leader's join reply.
+
+package broker
+
+// SyncGroup: once the group is Stable (all members joined, leader synced) the sync of every current member of that
+// generation succeeds; the leader's first sync in CompletingRebalance succeeds too. "Succeeds" = answer NONE unless
+// writing the group to the metadata store failed (gperr: what persistGroupLocked returned).
+//@ func (c *GroupCoordinator) SyncGroup
+//@   ghost gperr error = nil
+//@   at persistGroupLocked#1 after set gperr = ret0
+//@   requires has(c.groups, req.Group) ==> groupInv(mapval(c.groups, req.Group))
+//@   ensures [C14.sync_in_stable_generation_succeeds] err == nil && old(has(c.groups, req.Group)) && old(mapval(c.groups, req.Group).state) == groupStateStable && current(c, req.Group, req.MemberID, req.Generation) && isNilIface(gperr) ==> result0.ErrorCode == protocol.NONE
+//@   ensures [C14.leader_sync_completes_rebalance] err == nil && old(has(c.groups, req.Group)) && old(mapval(c.groups, req.Group).state) == groupStateCompletingRebalance && old(len(mapval(c.groups, req.Group).assignments)) == 0 && req.MemberID == old(mapval(c.groups, req.Group).leaderID) && current(c, req.Group, req.MemberID, req.Generation) && isNilIface(gperr) ==> result0.ErrorCode == protocol.NONE && mapval(c.groups, req.Group).state == groupStateStable
+//@   ensures [C14.sync_keeps_group_invariant] err == nil && old(has(c.groups, req.Group)) ==> has(c.groups, req.Group) && groupInv(mapval(c.groups, req.Group))
+
+// JoinGroup: the leader's successful reply lists every current member (and nobody else).
+//@ func (c *GroupCoordinator) JoinGroup
+//@   at persistGroupLocked#1 before assert [C14.join_leader_reply_lists_all_members] ready && memberID == state.leaderID ==> len(resp.Members) == len(state.members) && (forall i int :: 0 <= i && i < len(resp.Members) ==> has(state.members, resp.Members[i].MemberID)) && (forall k string :: has(state.members, k) ==> exists i int :: 0 <= i && i < len(resp.Members) && resp.Members[i].MemberID == k)
+//@   at persistGroupLocked#1 before assert [C14.join_success_flag] (resp.ErrorCode == protocol.NONE) == ready
+
+// Heartbeat keeps the group invariant (it changes no join state).
+//@ func (c *GroupCoordinator) Heartbeat
+//@   requires has(c.groups, req.Group) ==> groupInv(mapval(c.groups, req.Group))
+//@   ensures [C14.heartbeat_keeps_group_invariant] old(has(c.groups, req.Group)) ==> has(c.groups, req.Group) && groupInv(mapval(c.groups, req.Group))
